@@ -260,7 +260,8 @@ theorem writeFrom_spec (c : Cfg) (m : Bytes) (L : Layout) (data : Bytes) (st : R
     (hi : Inv m (L.off + 1) st) (hf : NoLate f) :
     Inv m (L.off + 1) (writeFrom c L st data f).st ∧
     ((writeFrom c L st data f).res = .ok () →
-      ReadsAs c (writeFrom c L st data f).st.tag { L with ndef := data }) ∧
+      ReadsAs c (writeFrom c L st data f).st.tag { L with ndef := data } ∧
+      (writeFrom c L st data f).st.tag[L.off + 1]? = some (if data.length < 255 then data.length else 255)) ∧
     (f = none → (writeFrom c L st data f).res = .ok ()) := by
   have hu : 0 < c.unit := hwf.2.1
   have harea := hwf.2.2.2.1
@@ -340,7 +341,13 @@ theorem writeFrom_spec (c : Cfg) (m : Bytes) (L : Layout) (data : Bytes) (st : R
     · cases hres
     · rename_i hok3
       rw [(d3 (by simpa using hok3)).1]
-      exact hnew
+      refine ⟨hnew, ?_⟩
+      have hlt2 : L.off + 1 < m2.length := by omega
+      rw [w.m3_eq]
+      split
+      · exact get_set_eq _ _ _ hlt2
+      · rw [get_set_ne _ _ _ _ (by show L.off + 3 ≠ L.off + 1; omega), get_set_ne _ _ _ _ (by show L.off + 2 ≠ L.off + 1; omega)]
+        exact get_set_eq _ _ _ hlt2
   · rw [(e3 (e3a (e2 (e1 hn).2).2).2).1]; rfl
 
 /-! ### histories -/
@@ -372,12 +379,33 @@ theorem history_roundtrip (c : Cfg) (m : Bytes) (L : Layout) (hr : ReadsAs c m L
     (hw : L.writeable = true) (hs : List (Bytes × Option Fault)) (hnl : ∀ a ∈ hs, NoLate a.2)
     (data : Bytes) (hcap : (data.length : Int) ≤ L.cap) :
     (attempt c L (history c L (fresh m) hs).1 data none).res = .ok () ∧
-    ReadsAs c (attempt c L (history c L (fresh m) hs).1 data none).st.tag { L with ndef := data } := by
+    ReadsAs c (attempt c L (history c L (fresh m) hs).1 data none).st.tag { L with ndef := data } ∧
+    readBack c (attempt c L (history c L (fresh m) hs).1 data none).st.tag = .ok (some { L with ndef := data }) := by
   have hi := history_inv c m L hr hwf hs hnl (fresh m) (Inv.fresh m _)
   have hsp := writeFrom_spec c m L data _ none hr hwf hcap hi NoLate.none
   unfold attempt
   rw [if_neg (by simp [hw]), if_neg (by omega)]
-  exact ⟨hsp.2.2 rfl, hsp.2.1 (hsp.2.2 rfl)⟩
+  obtain ⟨hra, hlen⟩ := hsp.2.1 (hsp.2.2 rfl)
+  refine ⟨hsp.2.2 rfl, hra, ?_⟩
+  unfold readBack
+  rw [(readNdef_some c _ _).2 hra]
+  simp only [hlen]
+  have hcap' := hcap
+  rw [hr.cap] at hcap'
+  have hfit := cap_fits L.skip L.off L.areaEnd data.length hcap'
+  have hend := (endAddr_le_area L.skip L.off L.areaEnd data.length hcap').1
+  have hsplit : countFree L.skip L.off L.areaEnd
+      = cfree L.skip L.off (hdrLen data.length) + countFree L.skip (L.off + hdrLen data.length) L.areaEnd := by
+    unfold countFree
+    rw [show L.areaEnd - L.off = hdrLen data.length + (L.areaEnd - (L.off + hdrLen data.length)) by omega]
+    exact cfree_split _ _ _ _
+  have hle := cfree_le L.skip L.off (hdrLen data.length)
+  have hh : (if (if data.length < 255 then data.length else 255) = 255 then 4 else 2) = hdrLen data.length := by
+    unfold hdrLen; split <;> simp_all <;> omega
+  have hh' : (if some (if data.length < 255 then data.length else 255) = some 255 then 4 else 2) = hdrLen data.length := by
+    simpa using hh
+  rw [hh']
+  rw [if_pos ⟨by omega, by omega⟩]
 
 /-! ### without a fault the attempt is the writer of `Model/Tlv.lean` -/
 
